@@ -798,13 +798,6 @@ def zstoreKeyFuncErr (cmd : List Bytes) : Bool :=
   | none => false
   | some i => decide (i < 2)
 
-/-- zinterstoreKeyFunc as it was before the repair (two source keys wanted before the first modifier); no handler
-    uses it any more, it remains the input shape of the class `zinterstore-options-need-two-keys` of Known.lean -/
-def zinterstoreKeyFuncErr (cmd : List Bytes) : Bool :=
-  match (cmd.drop 1).findIdx? isModifierTok with
-  | none => false
-  | some i => decide (i < 3)
-
 /-- the tail shared by the four commands once keys, weights and values are known -/
 def zCombineTail (inter store withscores : Bool) (dest aggregate : Bytes) (rows : List (Bytes × Bool × Val × Int)) : Prog Res :=
   match (if inter then interParams rows else unionParams rows) with
